@@ -8,6 +8,7 @@ import (
 	"os"
 	"sort"
 	"strings"
+	"sync"
 	"time"
 
 	"google.golang.org/grpc"
@@ -22,6 +23,7 @@ import (
 
 	"larking.io/larking"
 
+	"verif/dyn"
 	"verif/env"
 	"verif/explore"
 	"verif/ref/wire"
@@ -57,6 +59,10 @@ type statsLog struct {
 	out    int
 	endErr []error
 	tag    string
+	// well-formedness of the single events: a server-side event must not claim to be a client
+	// event, and InHeader names the message compression the request announced
+	clientSide []string
+	inComp     []string
 }
 
 func (s *statsLog) TagRPC(ctx context.Context, i *stats.RPCTagInfo) context.Context {
@@ -65,9 +71,13 @@ func (s *statsLog) TagRPC(ctx context.Context, i *stats.RPCTagInfo) context.Cont
 	return ctx
 }
 func (s *statsLog) HandleRPC(ctx context.Context, st stats.RPCStats) {
+	if st.IsClient() {
+		s.clientSide = append(s.clientSide, fmt.Sprintf("%T", st))
+	}
 	switch v := st.(type) {
 	case *stats.InHeader:
 		s.events = append(s.events, "InHeader")
+		s.inComp = append(s.inComp, v.Compression)
 	case *stats.Begin:
 		s.events = append(s.events, "Begin")
 	case *stats.InPayload:
@@ -474,6 +484,18 @@ func (e *c18Env) exec(tc *c18Case) (oracle, note string) {
 		if sl.tag != full {
 			return "stats-method", fmt.Sprintf("TagRPC FullMethodName %q want %q", sl.tag, full)
 		}
+		if len(sl.clientSide) > 0 {
+			return "stats-client-flag", fmt.Sprintf("server-side events that report IsClient()==true: %v", sl.clientSide)
+		}
+		if strings.HasPrefix(tc.Proto, "grpc") || strings.HasPrefix(tc.Proto, "web") {
+			want := ""
+			if strings.HasSuffix(tc.Proto, "-gzip") {
+				want = "gzip"
+			}
+			if len(sl.inComp) != 1 || sl.inComp[0] != want {
+				return "stats-inheader-compression", fmt.Sprintf("InHeader.Compression=%q, the request announced grpc-encoding %q", sl.inComp, want)
+			}
+		}
 		// End carries the error the handler chain returned
 		var wantErr error
 		switch {
@@ -790,9 +812,20 @@ func runC18(c *Ctx) {
 	})
 	c18WriteFaults(c)
 	c18EarlyExits(c)
+	c18LeftBehind(c)
 }
 
 func replayC18(c *Ctx, v report.Violation) {
+	if m, ok := v.Case.(map[string]any); ok && m["family"] == "left-behind" {
+		sub := *c
+		sub.Run = report.NewRun("C18", "quick", 0, "exploration")
+		c18LeftBehind(&sub)
+		fmt.Printf("replay: left-behind family re-run -> %d violations\n", sub.Run.NumViolations())
+		if sub.Run.NumViolations() > 0 {
+			c.Run.Violation(v)
+		}
+		return
+	}
 	var tc c18Case
 	if !remarshal(v.Case, &tc) {
 		fmt.Println("replay: cannot decode case")
@@ -807,5 +840,132 @@ func replayC18(c *Ctx, v report.Violation) {
 	fmt.Printf("replay: %+v -> oracle=%q %s\n", tc, oracle, note)
 	if oracle != "" {
 		c.Run.Violation(report.Violation{Oracle: oracle, Key: v.Key, Case: tc, Note: note})
+	}
+}
+
+// ---- a goroutine the handler left behind keeps receiving ------------------------------------
+//
+// What larking's own proxy handler does: the handler returns while its pump goroutine is still
+// in (or about to make) a RecvMsg on the front stream. Whatever that late call does, the RPC
+// is over once the stats handler has been told End: no event may follow it.
+
+type leftStats struct {
+	mu     sync.Mutex
+	events []string
+	onEnd  func()
+}
+
+func (s *leftStats) TagRPC(ctx context.Context, i *stats.RPCTagInfo) context.Context { return ctx }
+func (s *leftStats) HandleRPC(ctx context.Context, st stats.RPCStats) {
+	s.mu.Lock()
+	s.events = append(s.events, strings.TrimPrefix(fmt.Sprintf("%T", st), "*stats."))
+	s.mu.Unlock()
+	if _, ok := st.(*stats.End); ok && s.onEnd != nil {
+		s.onEnd() // the late call happens exactly now: after End was reported, before ServeHTTP returns
+	}
+}
+func (s *leftStats) TagConn(ctx context.Context, i *stats.ConnTagInfo) context.Context { return ctx }
+func (s *leftStats) HandleConn(context.Context, stats.ConnStats)                       {}
+
+type leftImpl struct {
+	goAhead chan struct{}
+	done    chan struct{}
+	lateErr error
+}
+
+func (l *leftImpl) Unary(c *dyn.Call) (proto.Message, error) {
+	return dynamicpb.NewMessage(c.Desc.Output()), nil
+}
+func (l *leftImpl) Stream(c *dyn.Call) error {
+	st := c.Stream
+	first := dynamicpb.NewMessage(c.Desc.Input())
+	if err := st.RecvMsg(first); err != nil {
+		close(l.done)
+		return err
+	}
+	go func() { // left behind
+		defer close(l.done)
+		<-l.goAhead
+		l.lateErr = st.RecvMsg(dynamicpb.NewMessage(c.Desc.Input()))
+	}()
+	if !c.Desc.IsStreamingServer() {
+		return st.SendMsg(dynamicpb.NewMessage(c.Desc.Output()))
+	}
+	return nil
+}
+
+func c18LeftBehind(c *Ctx) {
+	r := c.Run
+	ts, err := newTSchema()
+	if err != nil {
+		panic(err)
+	}
+	pb, _ := proto.Marshal(ts.newReq("", []byte("m"), 0))
+	two := append(wire.GRPCFrame(0, pb), wire.GRPCFrame(0, pb)...)
+	for _, method := range []string{"/vs.T/CS", "/vs.T/Bidi"} {
+		for _, front := range []string{"grpc", "web"} {
+			for _, when := range []string{"during-end", "after-return"} {
+				impl := &leftImpl{goAhead: make(chan struct{}), done: make(chan struct{})}
+				sl := &leftStats{}
+				release := func() {
+					close(impl.goAhead)
+					select {
+					case <-impl.done:
+					case <-time.After(20 * time.Second): // a late call parked for good is C09's subject, not this oracle's
+					}
+				}
+				if when == "during-end" {
+					sl.onEnd = release
+				}
+				m, err := larking.NewMux(append(append([]larking.MuxOption{}, ts.opts...), larking.StatsOption(sl))...)
+				if err != nil {
+					panic(err)
+				}
+				if err := m.VerifRegisterService(ts.gsd, dyn.NewServer(impl)); err != nil {
+					panic(err)
+				}
+				var res *callResult
+				if front == "grpc" {
+					res = doGRPC(m, method, "application/grpc", nil, reqBody{Data: two})
+				} else {
+					res = doWeb(m, method, "application/grpc-web+proto", nil, reqBody{Data: two})
+				}
+				if when == "after-return" {
+					release()
+				}
+				r.Eval(1)
+				key := fmt.Sprintf("left-behind receiver %s front=%s late-call=%s", method, front, when)
+				r.Distinct(key)
+				cs := map[string]any{"family": "left-behind", "method": method, "front": front, "when": when}
+				if res.Panicked {
+					r.Outcome("FAIL:panic")
+					r.Violation(report.Violation{Oracle: "panic", Key: "panic " + key, Case: cs, Note: res.Panic})
+					continue
+				}
+				sl.mu.Lock()
+				ev := strings.Join(sl.events, " ")
+				endAt := -1
+				for i, e := range sl.events {
+					if e == "End" && endAt < 0 {
+						endAt = i
+					}
+				}
+				tail := ""
+				if endAt >= 0 && endAt != len(sl.events)-1 {
+					tail = strings.Join(sl.events[endAt+1:], " ")
+				}
+				sl.mu.Unlock()
+				switch {
+				case endAt < 0:
+					r.Outcome("FAIL:stats-end-count")
+					r.Violation(report.Violation{Oracle: "stats-end-count", Key: "stats-end-count " + key, Case: cs, Note: "no End event: " + ev})
+				case tail != "":
+					r.Outcome("FAIL:stats-event-after-end")
+					r.Violation(report.Violation{Oracle: "stats-event-after-end", Key: "stats-event-after-end " + key, Case: cs, Note: fmt.Sprintf("events after End: %s (all: %s); the late RecvMsg returned %v", tail, ev, impl.lateErr)})
+				default:
+					r.Outcome("left-behind:no-event-after-end")
+				}
+			}
+		}
 	}
 }
